@@ -48,7 +48,9 @@ def oracle(ctx, names, cs, act, kind, val, log, tape):
                     if should_open:
                         ctx.violation(f'faced door at {(y, x)} (status {c[1]}) did not open', case)
             if c[0] == BOX_T and c2 != c:
-                legit = 5 in names and act == 6 and c2 == c[3]
+                legit = 5 in names and act == 6 and (c2 == c[3] or (
+                    # in a composition, an obstacle may move onto the floor the opened box left behind, within the same step
+                    3 in names and c[3] == gen.FLOOR and c2[0] == gen.TY['MovingObstacle']))
                 if single is not None:
                     legit = legit and (y, x) == f
                 if not legit:
